@@ -515,11 +515,19 @@ def nextGap (P : MtPrims σ T DT B) (tt : List T) (i : Nat) : Rat :=
   | some x, some y => if i + 1 < tt.length then todS P y - todS P x else todS P y + secPerDay - todS P x
   | _, _ => 0
 
-/-- consecutive entries of the timetable are at least `g` and at most `G` apart -/
+/-- `bisect.bisect_left(tt, q)` on the times of day: everything before the result is smaller, everything from it
+    on is not -/
+def BisectOk (P : MtPrims σ T DT B) (tt : List T) (q : T) : Prop :=
+  P.bisectLeft tt q ≤ tt.length ∧
+  (∀ i x, tt[i]? = some x → i < P.bisectLeft tt q → todS P x < todS P q) ∧
+  (∀ i x, tt[i]? = some x → P.bisectLeft tt q ≤ i → todS P q ≤ todS P x)
+
+/-- consecutive entries of the timetable are at least `g` and at most `G` apart, and `bisect_left` works on it -/
 structure TTok (P : MtPrims σ T DT B) (tt : List T) (g G : Rat) : Prop where
   pos : 0 < tt.length
   gap_lo : ∀ i, i < tt.length → g ≤ nextGap P tt i
   gap_hi : ∀ i, i < tt.length → nextGap P tt i ≤ G
+  bis : ∀ q, BisectOk P tt q
 
 theorem nextGap_step (tt : List T) (i : Nat) (x y : T) (hx : tt[i]? = some x) (hy : tt[i + 1]? = some y)
     (h : i + 1 < tt.length) : nextGap P tt i = todS P y - todS P x := by
@@ -579,13 +587,6 @@ theorem served_next (E : TimedEnv P) (tt : List T) (n i : Nat) (a : T) (A G g of
   · exact absurd c6 hs6
 
 /-! ## a pass that (re-)positions the index: start, reload, after a reset -/
-
-/-- `bisect.bisect_left(tt, q)` on the times of day: everything before the result is smaller, everything from it
-    on is not -/
-def BisectOk (P : MtPrims σ T DT B) (tt : List T) (q : T) : Prop :=
-  P.bisectLeft tt q ≤ tt.length ∧
-  (∀ i x, tt[i]? = some x → i < P.bisectLeft tt q → todS P x < todS P q) ∧
-  (∀ i x, tt[i]? = some x → P.bisectLeft tt q ≤ i → todS P q ≤ todS P x)
 
 theorem head_reload (L : MtLocals T DT) (w : σ) (h : L.v2 = true) :
     mtStep P L w = mtStep P ({ L with v2 := false, v4 := P.sortedUnion P.set24 (P.alarmKeys w), v5 := (P.sortedUnion P.set24 (P.alarmKeys w)).length, v6 := none } : MtLocals T DT) w := by
@@ -745,7 +746,7 @@ theorem ready_of_outcome (E : TimedEnv P) (g G : Rat) (tt : List T) (n idx : Nat
 theorem all_passes_good (E : TimedEnv P) (g G : Rat) (hJ0 : E.J = 0) (hlam : lamServe E ≤ ttError)
     (hg : E.L + E.C ≤ g) (hG : G < secPerDay / 2)
     (htt : ∀ w, TTok P (P.sortedUnion P.set24 (P.alarmKeys w)) g G)
-    (hbis : ∀ tt q, BisectOk P tt q) (N : Nat) :
+    (N : Nat) :
     ∀ (L : MtLocals T DT) (w : σ), Ready E g G L w → allPasses E G (GoodPass E G) N L w := by
   have herr : ttError = 5 / 2 := rfl
   have hd : secPerDay = (86400 : Rat) := rfl
@@ -765,7 +766,7 @@ theorem all_passes_good (E : TimedEnv P) (g G : Rat) (hJ0 : E.J = 0) (hlam : lam
         wp E G (fun L' w' => GoodPass E G L w L' w' ∧ allPasses E G (GoodPass E G) N L' w') (mtStep P L w) := by
       intro L0 e g1 g2 g6 gok glen gov
       obtain ⟨idx, a, A, kA, hidx, hget, hA, _, _, hw⟩ :=
-        pass_resync E G L0.v4 L0.v5 g G L0 w (le_refl _) g1 g2 g6 rfl rfl glen gov gok (hbis _ _) hG hwin
+        pass_resync E G L0.v4 L0.v5 g G L0 w (le_refl _) g1 g2 g6 rfl rfl glen gov gok (gok.bis _) hG hwin
       rw [e]
       refine wp_mono E G _ _ ?_ _ hw
       intro L' w' ho
